@@ -101,4 +101,12 @@ Proof.
   - rewrite firstn_all2 by lia. rewrite skipn_all. apply app_nil_r.
 Qed.
 
+Lemma nth_error_skipn' (l : list A) : forall m j, nth_error (skipn m l) j = nth_error l (m + j).
+Proof. induction l; intros [|m] j; simpl; auto. destruct j; auto. Qed.
+
+Lemma nth_error_firstn' (l : list A) : forall k j, j < k -> nth_error (firstn k l) j = nth_error l j.
+Proof.
+  induction l as [|x l IH]; intros [|k] [|j] H; simpl; auto; try lia. apply IH. lia.
+Qed.
+
 End ListUtil.
